@@ -230,7 +230,14 @@ fn plan_inner(prop: &str, tier: &str) -> Option<Plan> {
                 jobs,
                 level: "exploration".into(),
                 rule: format!("every canonical adjacency shape (all connect-only histories up to the edge bound, deduplicated by observed adjacency lists, edges labelled 1..L) x every root x {}. The smaller bounds are repeated with every shape reached from a non-initial state (a complete mesh connected and then disconnected edge by edge, or torn down with isolate, before the shape is built; a temporary edge on an unused pair connected before and disconnected after every connect): equal observable adjacency must mean equal search behaviour whatever the history; and once more with keys of a type whose Hash maps every key to the same value (the library requires only K: Hash + Eq, so node identity must never be decided by hash). evaluations = searches executed on the real code; nontrivial = distinct cases with a non-empty filter or a result of >= 2 edges / >= 3 nodes", what),
-                bounds: json!({"(nodes, max_edges, node_value_range, shards)": bounds}),
+                bounds: json!({
+                    "(nodes, max_edges, node_value_range, shards)": bounds,
+                    "large_structured_families_max_nodes": if tier == "quick" { if matches!(prop, "C06" | "C07" | "C10") { 17 } else { 20 } } else { 40 },
+                    "shapes_up_to_renaming_(nodes, max_edges)": if !matches!(prop, "C04" | "C05" | "C09" | "C10") { json!([]) } else if tier == "quick" { json!({"directed": [[5, if prop == "C10" { 4 } else { 5 }]], "undirected": [[5, 4]]}) } else { json!({"directed": [[6, 5], [7, 5], [5, 6]], "undirected": [[6, 4], [5, 5]]}) },
+                    "non_initial_states_and_colliding_hashes_(nodes, max_edges)": if tier == "quick" { json!([[3, if prop == "C06" { 2 } else { 3 }]]) } else { json!([[3, if prop == "C06" { 3 } else { 4 }], [4, 3]]) },
+                    "note_undirected_flavours": if tier == "quick" && prop == "C06" { json!("bounds with >= 3 nodes are one edge smaller on ungraph / sync_ungraph (filters range over both orientations of every edge)") } else if tier == "quick" && prop == "C07" { json!("(3, 4) is (3, 3) on ungraph / sync_ungraph") } else { json!(null) },
+                    "priority_queue_family_k": if prop != "C06" { json!(null) } else if tier == "quick" { json!([2, 3, 4]) } else { json!([2, 3, 4, 5]) },
+                }),
                 exhaustive: true,
                 assumptions: common_assumptions,
             })
